@@ -772,6 +772,8 @@ class ModuleEnv:
             i = eng.need_int(vals[1], st, node).t
             if isinstance(lst, VList):
                 return list_get(lst, i)
+            if isinstance(lst, VSeq):      # a lazily described sequence (comprehension result): its i-th element by definition
+                return lst.get(i)
             raise SpecError('at() of non-list')
         if name in ('s_start', 's_stop'):
             n = eng.need_int(vals[1], st, node).t
